@@ -160,6 +160,11 @@ ITERATORS = [
     ("ts_node_child_iterator_next", "ts_subtree_extra(*child)", "self->alias_sequence[self->structural_child_index]", "self->structural_child_index", "self->child_index"),
     ("ts_tree_cursor_child_iterator_next", "ts_subtree_extra(*child)", "self->alias_sequence[self->structural_child_index]", "self->structural_child_index", "self->child_index"),
 ]
+# other readers of an alias sequence: (function, extra-test, alias read, structural increment)
+ALIAS_READERS = [
+    ("ts_subtree_summarize_children", "ts_subtree_extra(child)", "alias_sequence[structural_index]", "structural_index"),
+    ("ts_subtree__write_to_string", "ts_subtree_extra(_)", "_->alias_sequence[_->structural_child_index]", None),
+]
 
 
 def incs(fn, target):
@@ -214,6 +219,61 @@ def rule_s3(ctx, F):
             ctx.bad("S3", name + ":structural-index-advances", "%s: %s" % (name, v.msg), {"path": s.render_path(v.path)})
 
 
+def in_cycle(fn, bid):
+    seen, work = set(), [e.to for e in fn.blocks[bid].succs if e.reach]
+    while work:
+        b = work.pop()
+        if b == bid:
+            return True
+        if b in seen:
+            continue
+        seen.add(b)
+        work.extend(e.to for e in fn.blocks[b].succs if e.reach)
+    return False
+
+
+def rule_s3b(ctx, F):
+    for name, extra, alias, sidx in ALIAS_READERS:
+        fn = ctx.need_fn(F, name, "S3")
+        if not fn:
+            continue
+        reads = [pt for pt, n in find(fn, alias)]
+        if not reads:
+            ctx.bad("S3", name + ":alias-read", "%s no longer reads the alias sequence as `%s`" % (name, alias))
+            continue
+        ctx.gate("S3", fn, reads, [("alias sequence consulted only for non-extra children (extras occupy no structural slot)", extra, False)], accept_desc="the alias-sequence read")
+        if sidx:
+            inc = incs(fn, sidx)
+            ctx.gate("S3", fn, inc, [("structural index advances only past non-extra children", extra, False)], accept_desc="%s++" % sidx)
+    # goto_descendant: each level of the ascent counts *its own* entry iff that entry is visible
+    fn = ctx.need_fn(F, "ts_tree_cursor_goto_descendant", "S3")
+    if fn:
+        vis = [(pt, n) for pt, n in find(fn, "ts_tree_cursor_is_entry_visible(self, _)")]
+        nd = fn.ids_named("next_descendant_index")
+        defs = [d for i in nd for d in fn.defs(i) if isinstance(d, dict)]
+        ok_all = bool(vis) and bool(defs)
+        why = ""
+        for d in defs[:1]:
+            if not any(x.get("k") == "call" and x.get("fn") == "ts_tree_cursor_is_entry_visible" for x in walk(d)) and \
+               not any(x.get("k") == "ref" and fn.single_def(x["id"]) is not None and any(y.get("fn") == "ts_tree_cursor_is_entry_visible" for y in walk(fn.single_def(x["id"]))) and False for x in walk(d)):
+                ok_all, why = False, "the ascent's index bound no longer evaluates ts_tree_cursor_is_entry_visible for the entry being tested"
+        for pt, n in vis[:1]:
+            if ok_all and not in_cycle(fn, pt[0]):
+                ok_all, why = False, "ts_tree_cursor_is_entry_visible is evaluated once outside the ascent loop, not for every level"
+        if ok_all:
+            # the index passed is the one the entry was fetched with
+            ent = fn.ids_named("entry")
+            de = [d for i in ent for d in fn.defs(i) if isinstance(d, dict)]
+            idxs = {show(strip(n["a"][1])) for pt, n in vis}
+            ent_idx = {show(x["i"]) for d in de for x in walk(d) if x.get("k") == "idx"}
+            if not (idxs & ent_idx):
+                ok_all, why = False, "visibility is tested for index %s but the entry is fetched at %s" % (sorted(idxs), sorted(ent_idx))
+        if ok_all:
+            ctx.ok("S3", "ts_tree_cursor_goto_descendant:per-level-visibility", "every level of the ascent counts its own entry exactly when that entry is visible")
+        else:
+            ctx.bad("S3", "ts_tree_cursor_goto_descendant:per-level-visibility", "ts_tree_cursor_goto_descendant: " + (why or "anchors not found"), {"function": fn.name})
+
+
 def rule_s4(ctx, F):
     table = [
         ("ts_node__field_name_from_language", "field_map", "structural_child_index", lambda e: e.get("k") == "ret" and strip(e["e"]).get("k") != "null" and not (strip(e["e"]).get("k") == "int")),
@@ -239,6 +299,7 @@ def run(ctx):
         rule_f1(ctx, F)
         rule_siblings(ctx, F)
         rule_s3(ctx, F)
+        rule_s3b(ctx, F)
         rule_s4(ctx, F)
     return ctx.finish(
         "Sibling-agreement (CFG isomorphism under substitution), field-coverage and index-width rules over node.c / tree_cursor.c: byte- and point-range "
